@@ -12,14 +12,17 @@ Local Open Scope Z_scope.
 
 (* ------------------------------------------------------------ Fibonacci *)
 Fixpoint fibp (n : nat) : Z * Z :=
-  match n with O => (0, 1) | S k => (snd (fibp k), fst (fibp k) + snd (fibp k)) end.
+  match n with O => (0, 1) | S k => let (a, b) := fibp k in (b, a + b) end.
 Definition fib (n : nat) : Z := fst (fibp n).
 
 Lemma fib_SS n : fib (S (S n)) = fib (S n) + fib n.
-Proof. unfold fib. cbn [fibp fst snd]. lia. Qed.
+Proof. unfold fib. cbn [fibp]. destruct (fibp n) as [a b]. cbn. lia. Qed.
 
 Lemma fibp_pos n : 0 <= fst (fibp n) /\ 0 < snd (fibp n).
-Proof. induction n as [|k IH]; cbn [fibp fst snd]; lia. Qed.
+Proof.
+  induction n as [|k IH]; cbn [fibp]; [cbn; lia|].
+  destruct (fibp k) as [a b]. cbn [fst snd] in *. lia.
+Qed.
 
 Lemma fib_nonneg n : 0 <= fib n.
 Proof. apply fibp_pos. Qed.
@@ -33,7 +36,7 @@ Lemma fib_mono n m : (n <= m)%nat -> fib n <= fib m.
 Proof. induction 1 as [|m H IH]; [lia|]. pose proof (fib_le_S m). lia. Qed.
 
 Lemma fib_35 : fib 35 = 9227465.
-Proof. reflexivity. Qed.
+Proof. vm_compute. reflexivity. Qed.
 
 Definition fibz (z : Z) : Z := fib (Z.to_nat z).
 
@@ -206,8 +209,16 @@ Proof.
   intros Hpos. split; cbn [freq chains].
   - intros i sc Hi _ Hin. rewrite init_chains_nth in Hin by exact Hi.
     destruct Hin as [<-|[]]. cbn [snd]. change (fibz (0 + 2)) with 1. apply Hpos. apply nth_In_Z. exact Hi.
-  - intros j sc Hj _ Hin. rewrite (init_chains_cs _ _ _ Hin). rewrite fibz_1.
+  - intros j sc Hj _ Hin. rewrite (init_chains_cs _ _ _ Hin). change (fibz (0 + 1)) with 1.
     apply Hpos. apply nth_In_Z. exact Hj.
+Qed.
+
+Lemma lookup_member i ch : In i (map fst ch) -> In (i, lookup_cs i ch) ch.
+Proof.
+  induction ch as [|[s c] t IH]; intros H; [destruct H|].
+  cbn [lookup_cs]. destruct (Nat.eqb s i) eqn:E.
+  - apply Nat.eqb_eq in E. subst. left. reflexivity.
+  - apply Nat.eqb_neq in E. right. apply IH. destruct H as [H|H]; [cbn in H; lia|exact H].
 Qed.
 
 (* every code size read back from a reachable state is Fibonacci-bounded by T *)
@@ -220,14 +231,15 @@ Proof.
   pose proof (mi_perm _ _ _ _ I) as P. fold all in P.
   assert (Hk : In i (map fst all)).
   { apply Permutation_in with (l := seq 0 n); [symmetry; exact P|exact Hi]. }
-  pose proof (lookup_In i all Hk) as Hin. unfold all in Hin at 2.
+  pose proof (lookup_member i all Hk) as Hin. unfold all in Hin at 2.
   apply in_concat in Hin. destruct Hin as (ch & Hch & Hsc).
   destruct (In_nth _ _ [] Hch) as (k & Hkl & Ek).
   pose proof (mi_lf _ _ _ _ I) as Lf. pose proof (mi_lc _ _ _ _ I) as Lc.
   assert (Hkn : (k < n)%nat) by (rewrite <- Lc; exact Hkl).
   destruct (mi_slot _ _ _ _ I k Hkn) as [[_ Enil]|[Fk _]].
-  { rewrite Ek in Enil. subst ch. destruct Hsc. }
-  rewrite <- Ek in Hsc.
+  { subst ch. exfalso. cut (In (i, lookup_cs i all) (@nil (nat * Z))); [intros []|].
+    rewrite <- Enil. exact Hsc. }
+  subst ch.
   pose proof (J1 k _ Hkn ltac:(lia) Hsc) as Hb. cbn [snd] in Hb.
   assert (Hg : glive (nthZ (freq st) k) <= T).
   { rewrite <- (mi_sum _ _ _ _ I). apply sumZ_map_term; [|lia].
@@ -252,6 +264,7 @@ Proof.
   assert (Ln : n = S (length (nz_scan a 0))).
   { unfold n, nzs. rewrite app_length. cbn. lia. }
   assert (Lm : length (map snd nzs) = n) by (rewrite map_length; reflexivity).
+  clearbody n.
   assert (Hfs : forall f, In f (map snd nzs) -> 1 <= f).
   { intros f Hf. unfold nzs in Hf. rewrite map_app in Hf. apply in_app_or in Hf.
     destruct Hf as [Hf|Hf].
@@ -310,7 +323,7 @@ Proof.
   exists t. split; [reflexivity|].
   destruct (gen_table_valid_table freq256 t Hnn Hs Hcnt E) as [G _].
   destruct (gen_table_accepted freq256 t Hnn Hs Hcnt E) as (V1 & V2 & V3).
-  repeat split; assumption.
+  split; [exact G|]. split; [exact V1|]. split; [exact V2|exact V3].
 Qed.
 
 (* ============================================================== examples *)
@@ -324,9 +337,10 @@ Proof.
   - split; vm_compute; reflexivity.
 Qed.
 
-(* 32 Fibonacci counts: longest pure code is exactly MAX_CLEN = 32, no overflow *)
+(* 32 Fibonacci counts: total with the pseudo symbol 9227464 = fib 35 - 1 (the
+   largest total the theorem admits); longest pure code exactly MAX_CLEN = 32 *)
 Example gen_no_overflow_32 :
-  hyps (fibs 32 1 2) /\ sumZ (fibs 32 1 2) = 9227462 /\
+  hyps (fibs 32 1 2) /\ sumZ (fibs 32 1 2) = 9227463 /\
   (exists nz cs, gen_codesizes (fibs 32 1 2) = inr (nz, cs) /\ In 32 cs) /\
   exists t, gen_optimal_table (fibs 32 1 2) = inr t.
 Proof.
